@@ -597,12 +597,11 @@ class MapEntryCompiler(FieldCompiler):
 
     def __post_init__(self) -> None:
         """Explore nested types and set k_type and v_type if unset."""
-        map_entry = f"{self.proto_obj.name.replace('_', '').lower()}entry"
+        # the entry message protoc generated for this field is named by its type_name
+        # (comparing normalised names confuses the entries of e.g. foo_bar and foobar)
+        entry_name = self.proto_obj.type_name.split(".").pop()
         for nested in self.parent.proto_obj.nested_type:
-            if (
-                nested.name.replace("_", "").lower() == map_entry
-                and nested.options.map_entry
-            ):
+            if nested.name == entry_name and nested.options.map_entry:
                 # Get Python types
                 self.py_k_type = FieldCompiler(
                     source_file=self.source_file,
